@@ -8,7 +8,7 @@ import sys
 from hypothesis import strategies as st
 
 from vf import forms, gens, refs
-from vf.core import Result, lib
+from vf.core import Result, history_independent, lib
 
 ID = "C06"
 TITLE = "Gas Z-factor is the root of the Dranchuk-Abou-Kassem equation of state"
@@ -165,6 +165,17 @@ def check_case(case) -> Result:
             tolq = 1e-5 if "np.float32" in (tf, pf) else 1e-12
             res.check("C06/input-dtype-irrelevant", abs(zq - zf), tolq, f"Z(T={Tq!r} as {tf}, p={pq!r} as {pf})={zq!r} vs the same values as Python floats {zf!r};")
             res.labels["scalar_forms"] = "non-float"
+    # Z(T, p) is a function of its arguments only: evaluating neighbouring isotherms / other pseudocritical points in
+    # between (a fine temperature sweep, a finite-difference dZ/dT, another gas) must not change it, and the value on
+    # the neighbouring isotherm must be the root for ITS temperature
+    dT = (T + 459.67) * 2e-6
+    lib("z_factor_DAK", history_independent, res, "C06/independent-of-call-history", G.z_factor_DAK, (T, p, tpc, ppc), [(T + dT, p, tpc, ppc), (T - dT, 0.5 * p, tpc, ppc), (T, p, tpc + 1e-4, ppc)], "z_factor_DAK")
+    z_first = float(lib("z_factor_DAK", G.z_factor_DAK, T, p, tpc, ppc))
+    z_near = float(lib("z_factor_DAK", G.z_factor_DAK, T + dT, p, tpc, ppc))
+    tr_near = (T + dT + 459.67) / (tpc + 459.67)
+    if 1.05 <= tr_near <= 3.0 and math.isfinite(z_near) and z_near > 0:
+        g_near = min(abs(refs.dak_residual(z_near, tr_near, pr, variant=False)), abs(refs.dak_residual(z_near, tr_near, pr, variant=True)))
+        res.check("C06/root-on-neighbouring-isotherm", g_near, 1e-8, f"Z={z_near!r} at T_r={tr_near!r} (evaluated right after T_r={tr!r}), p_r={pr!r}: not a root of the equation of state at its own temperature (Z on the first isotherm {z_first!r});")
     # (iv) low-pressure limit
     if pr <= 1e-2:
         res.check("C06/low-pressure-limit", abs(z - 1.0), 0.6 * pr, f"|Z-1| with Z={z!r} at p_r={pr!r} T_r={tr!r};")
